@@ -269,6 +269,19 @@ class Exec:
             st.heap = h            # benign: lazily materialised initial value (same term on all paths)
         return st.heap[name]
 
+    def materialise_all(self, st):
+        """give every declared heap field its array in `st` NOW.  Needed before a wildcard havoc (`modifies=["*"]` of a callee, `*` in a
+        loop frame): a field that no statement has touched yet has no entry in st.heap, would be created lazily LATER from the initial
+        constant and would thereby read as unchanged across the wildcard (seen as a contradiction with a callee postcondition over a
+        ghost field, DESIGN §11.5)"""
+        names = {"$seq", "$set", "$dkeys", "$dval", "$dd", "$ddkeys"}
+        for c in CLASSES.values():
+            names |= {n for n, t in c.fields.items() if not str(t).startswith("prop:")}
+        names |= {k[1:] for k in self.c.types if k.startswith(".")}
+        for n in sorted(names):
+            self.hfield(st, n)
+        return st
+
     def field_sort(self, name):
         if name == "$seq" or name == "$dkeys":
             return Sq
@@ -533,7 +546,7 @@ class Mode:
 
 
 PURE_BUILTINS = {"hex", "getattr", "len", "isinstance", "id", "hasattr", "bool", "tuple", "frozenset", "min", "max", "abs", "callable", "type", "iter", "int"}
-SPEC_FUNCS = {"mapfn", "all_in", "tagall", "flat", "oldfield", "called", "listof", "intof", "after", "values", "entry", "implies", "old", "call", "call2", "all", "any", "no_dups", "seq", "setof", "filt", "addall", "cat", "forall", "exists",
+SPEC_FUNCS = {"attempted", "mapfn", "all_in", "tagall", "flat", "oldfield", "called", "listof", "intof", "after", "values", "entry", "implies", "old", "call", "call2", "all", "any", "no_dups", "seq", "setof", "filt", "addall", "cat", "forall", "exists",
               "is_tuple", "ite", "fresh", "contents", "keys", "dget", "dhas", "rng", "idof", "rev", "prefix", "isinst", "truth",
               "subseq_of", "perm", "count", "sorted_by", "index", "pair", "slice_adj", "typeis", "allocated", "ghost"}
 
@@ -1337,6 +1350,12 @@ def _patch_engine():
         label = self.pev(node.args[0], st, m).py
         return sv_bool("$after:" + label in st.ghost)
     E.sf_called = sf_called
+
+    def sf_attempted(self, node, st, m):
+        """attempted("callee text"): that (contract) call was made on this path -- whether it returned or raised"""
+        label = self.pev(node.args[0], st, m).py
+        return sv_bool("$tried:" + label in st.ghost)
+    E.sf_attempted = sf_attempted
 
     def sf_after(self, node, st, m):
         """after("callee text", e): e evaluated in the state right after that (contract) call returned on this path;
@@ -2594,6 +2613,7 @@ def _patch_loops():
         if declared is not None:
             for d in declared:
                 if d == "*":
+                    self.materialise_all(st2)
                     wild |= set(st2.heap) | set(self.heap0)
                     continue
                 spots += self.modset_entry(d, st, Mode(True))
@@ -3679,6 +3699,10 @@ def _patch_calls():
                 continue
             bad = st.assume(c)
             bad = bad.copy(notes=bad.notes + (f"L{self.rel_line(node)}:{exc_name}",))
+            try:
+                bad = bad.copy(ghost=dict(bad.ghost, **{"$tried:" + ast.unparse(node.func): True}))     # attempted("<callee text>")
+            except Exception:
+                pass
             if fnc.modifies and exc_name in fnc.may_raise:
                 # the callee may have changed anything in its frame before raising: havoc the frame, then assume what its
                 # contract says about exceptional exits (exc_ensures of this exception class or of a base class of it)
@@ -3690,6 +3714,7 @@ def _patch_calls():
                         continue
                     bspots += sub.modset_entry(d, cst, m_pre)
                 if star:
+                    self.materialise_all(bad)
                     bad = bad.copy(heap={nm: self.fresh("H_" + nm.replace("$", "S_"), arr.sort()) for nm, arr in bad.heap.items()})
                 for nm, obj in bspots:
                     bad = self.havoc_spot(bad, nm, obj)
@@ -3716,6 +3741,7 @@ def _patch_calls():
         spots = []
         for d in fnc.modifies:
             if d == "*":
+                self.materialise_all(post)
                 heap = {nm: self.fresh("H_" + nm.replace("$", "S_"), arr.sort()) for nm, arr in post.heap.items()}
                 post = post.copy(heap=heap)
                 continue
@@ -3756,7 +3782,7 @@ def _patch_calls():
         except Exception:
             label = fnc.qualname
         snap_state = post.copy(env=dict(post.env, **{"$result": res}))
-        post = post.copy(ghost=dict(post.ghost, **{"$after:" + label: snap_state}))
+        post = post.copy(ghost=dict(post.ghost, **{"$after:" + label: snap_state, "$tried:" + label: True}))
         def finish(post2):
             if self.c.monitor and label in self.c.monitor.get("calls", []) and not post2.ghost.get("$lockdepth"):
                 post2 = self.interfere(post2, node, "after-call")
